@@ -34,7 +34,7 @@ func genC05BigCase() *rapid.Generator[C05BigCase] {
 		return C05BigCase{
 			Backend: rapid.SampledFrom([]string{"memory", "memory", "sqlite"}).Draw(t, "backend"),
 			N:       rapid.SampledFrom([]int{300, 1023, 1024, 1030, 1500, 2100, 4200}).Draw(t, "n"),
-			Leased:  rapid.SampledFrom([]int{1, 2, 3, 10, 50}).Draw(t, "leased"),
+			Leased:  rapid.SampledFrom([]int{1, 2, 3, 10, 50, 65, 130, 300}).Draw(t, "leased"),
 			Late:    rapid.SampledFrom([]int{0, 0, 1, 5, 100}).Draw(t, "late"),
 			Release: rapid.SampledFrom([]string{"nack", "nackb", "expire"}).Draw(t, "release"),
 			Batch:   rapid.SampledFrom([]int{1, 7, 100}).Draw(t, "batch"),
@@ -140,6 +140,21 @@ func runC05Big(c C05BigCase) qOutcome {
 		if err != nil {
 			out.Failure = fail("HARNESS", "dequeue", 0, "%v", err)
 			return finish()
+		}
+		if k == 0 {
+			// everything unsettled is ready at this instant: the first poll hands out min(batch, ready)
+			want := len(unsettled)
+			if want > 100 {
+				want = 100
+			}
+			if len(resp.Items) != want {
+				stt, _ := st.Stats()
+				out.Failure = fail("C05", "ready-left-behind", 0, "%d unsettled messages are ready (%d leases released by %s, %d enqueued late), a dequeue of 100 returned %d (stats %v)", len(unsettled), len(held), c.Release, c.Late, len(resp.Items), stt.ByState)
+				return finish()
+			}
+			if len(held) > 64 {
+				labels["many-leases-released-at-once"] = true
+			}
 		}
 		if len(resp.Items) == 0 {
 			break
